@@ -425,6 +425,8 @@ def _closure_of_operand(prog, fn, op, at):
         rv = ds[0][2]["rhs"]
         if rv["rv"] == "agg" and rv.get("agg") == "closure" and rv.get("closure") in prog.fns:
             return prog.fns[rv["closure"]], {"k": "cp", "pl": {"l": l, "p": []}}
+        if rv["rv"] == "use" and rv["a"].get("k") == "c" and isinstance(rv["a"].get("v"), dict) and rv["a"]["v"].get("fn") in prog.fns:
+            return prog.fns[rv["a"]["v"]["fn"]], None          # a local holding a lib function item
         if rv["rv"] == "use" and rv["a"].get("k") in ("cp", "mv") and not rv["a"]["pl"]["p"]:
             l = rv["a"]["pl"]["l"]
             continue
@@ -467,8 +469,24 @@ def _desugar_site(prog, fn, raw, b, t):
     # ---- direct call of a local closure: f(a, b)  ==  FnOnce::call_once(f, (a, b))
     if cal in ("core::ops::function::FnOnce::call_once", "core::ops::function::FnMut::call_mut", "core::ops::function::Fn::call") and len(args) == 2:
         clo, env = _closure_of_operand(prog, fn, args[0], b)
-        if clo is None or clo.kind != "Closure" or clo.id == fn.id:
+        if clo is None or clo.id == fn.id:
             return False
+        if clo.kind != "Closure":
+            # `f(a, b)` where f is a parameter bound to a lib function (after a generic helper was inlined):
+            # make it the direct call it is
+            tup = args[1]
+            ops = None
+            if tup.get("k") in ("cp", "mv") and not tup["pl"]["p"]:
+                ds = fn.defs().get(tup["pl"]["l"], [])
+                if len(ds) == 1 and ds[0][1] == "assign" and ds[0][2]["rhs"]["rv"] == "agg" and ds[0][2]["rhs"].get("agg") == "tuple":
+                    ops = ds[0][2]["rhs"]["ops"]
+            if ops is None or len(ops) != clo.arg_count:
+                return False
+            nt = dict(t)
+            nt.update({"callee": clo.id, "callee_full": clo.id, "resolved": clo.id, "resolved_kind": "Item", "callee_trait": None,
+                       "args": [copy.deepcopy(o) for o in ops], "arg_tys": list(clo.inputs), "gargs": [], "virtual": False})
+            raw["blocks"][b]["term"] = nt
+            return True
         # the argument tuple: an aggregate defined just before
         tup = args[1]
         ops = None
